@@ -10,16 +10,19 @@ class C01(KernelProp):
     n_ops = (10, 30)
     weights = {"new": 8, "enter": 10, "exit": 9, "add": 14, "addtd": 22, "addf": 3, "getnw": 4, "get": 2,
                "finish": 1, "getall": 1, "current": 1, "parent": 0, "spawn": 1, "state": 3}
-    gen_kwargs = {"td_depth": 3, "malformed": 0.03, "wrong_state": 0.03, "many_callbacks": True, "exc_end": 0.5, "p_cancel": 0.2}
+    gen_kwargs = {"td_depth": 3, "malformed": 0.03, "wrong_state": 0.03, "many_callbacks": True, "exc_end": 0.5, "p_cancel": 0.2, "p_mid": 0.25}
     rule = ("operation sequences over <=8 contexts / 3 tasks on both back-ends with 0-12 teardown callbacks per context "
             "registered through add_teardown_callback, the module-level shortcut and add_resource(teardown_callback=), "
             "sync/async, with/without pass_exception, raising Exception/BaseException subclasses, registering further "
             "callbacks during teardown (3 levels), bodies that add/look up resources while closing; blocks ending by "
             "return, Exception, BaseException, or cancellation (20% of exits: a cancel scope around the block is "
-            "cancelled; async callbacks are then invoked and cancelled at their first checkpoint). Non-trivial: some context is left with >=3 callbacks of which at least "
+            "cancelled; async callbacks are then invoked and cancelled at their first checkpoint), and a quarter of the other exits "
+            "with the scope cancelled while a directly registered asynchronous callback is running (it has done its work and "
+            "is suspended; it and every asynchronous callback after it end cancelled). Non-trivial: some context is left with >=3 callbacks of which at least "
             "one raises, registers during teardown or is async")
-    assumptions = ["cancellation is generated as the way the block ends; cancellation arriving in the middle of a teardown "
-                   "that began for another reason, and shielded callbacks, are not generated",
+    assumptions = ["cancellation is generated as the way the block ends or as arriving during a directly registered asynchronous "
+                   "callback (after its work); cancellation during a synchronous callback or one registered during the "
+                   "teardown, and shielded callbacks, are not generated",
                    "when every exception reaching the caller is a cancellation, their number and nesting are the "
                    "back-end's (compared as one token)",
                    "sys.exc_info() inside __aexit__ being the block's exception is CPython's"]
